@@ -44,6 +44,12 @@ def popLast {α} : List α → Except Err (α × List α)
 /-- `s.add(x)` on a Python set kept as a list without repetitions -/
 def setAdd (s : List Nat) (x : Nat) : List Nat := if x ∈ s then s else s ++ [x]
 
+/-- `mask_specified(m)` with masks as `None` / `Mask.FLEX` = -1 / `Mask.NONE` = -2 / an explicit mask `k ≥ 0`: true unless the
+    mask is one of the two enum members -/
+def maskSpecified : Option Int → Bool
+  | some x => decide (0 ≤ x)
+  | none => true
+
 /-- a user hook (`_initialize`, `_update`, …): leaves the component's status alone (`none`) or sets it (`some s`) -/
 def hook (o : Option Int) (st : Int) : Except Err Int := pure (o.getD st)
 
